@@ -486,8 +486,8 @@ class Check:
         self.known = {f["key"]: f for f in load_known() if f.get("property") == pid and f.get("status") == "open"}
         os.makedirs(EVID, exist_ok=True)
         os.makedirs(REPLAYS, exist_ok=True)
-        # replay files of an earlier run of this check are stale
-        for f in os.listdir(REPLAYS):
+        # replay files of an earlier run of this check are stale (kept while one of them is being replayed)
+        for f in ([] if os.environ.get("VERIF_REPLAYING") else os.listdir(REPLAYS)):
             if f.startswith(pid + "-"):
                 try:
                     os.remove(os.path.join(REPLAYS, f))
@@ -540,10 +540,11 @@ class Check:
             ev["coverage"]["known_findings_reproduced"] = sorted(self.known_hits)
         if not ev["coverage"]["samples"]:
             ev["coverage"]["samples"] = ["(none)"]
-        tmp = os.path.join(EVID, self.pid + ".json.tmp")
-        with open(tmp, "w") as f:
-            json.dump(ev, f, indent=1, default=str)
-        os.replace(tmp, os.path.join(EVID, self.pid + ".json"))
+        if not os.environ.get("VERIF_REPLAYING"):     # a replay re-executes one case: it does not replace the evidence of a full run
+            tmp = os.path.join(EVID, self.pid + ".json.tmp")
+            with open(tmp, "w") as f:
+                json.dump(ev, f, indent=1, default=str)
+            os.replace(tmp, os.path.join(EVID, self.pid + ".json"))
         if self.violations:
             return 1
         print("OK property=%s tier=%s wall=%.1fs %s" % (self.pid, self.tier, wall, json.dumps(
